@@ -526,25 +526,47 @@ def check_C11(tier, seed):
                         "Plugin/Unplug events by the session id of their EV and their type",
                         "the private attribute _timestep is not observed",
                         "pkg_resources.require (version lookup inside to_json/from_json) is memoised in the harness process"]
-    # (A) the specification's theorems, exhaustively
+    # (A) the specification's theorems, exhaustively, and (B1) plans - independent TLC runs, side by side
     what = ("exhaustive model checking, call sequences of ANY length creating <= %d events, ts in 0..2: "
             "T1 GetEventMinimal, T2 OrderForEveryInterleaving, T3 CurrentExact/CurrentSplit, T4 Conservation, "
-            "T5 QueriesReflect/QueriesPure, T6 RoundTripIdentity, T7 DrainSorted, TypeOK")
-    mc = run_tlc("MC_EventQueue", "EventQueue_mc", coverage=True, workers=None if thorough else 4,
-                 overrides={"MaxEv": "= 3"}, timeout=900)
+            "T5 QueriesReflect/QueriesPure, T6 RoundTripIdentity, T7 DrainSorted, T8 TimeThenUnplugPluginRecompute, TypeOK")
+    heap_ev = 4 if thorough else 3
+    with ThreadPoolExecutor(max_workers=5) as ex:
+        f_mc = ex.submit(run_tlc, "MC_EventQueue", "EventQueue_mc", coverage=True, workers=4,
+                         overrides={"MaxEv": "= 3"}, timeout=900)
+        f_heap = ex.submit(run_tlc, "MC_EventQueueHeap", "EventQueueHeap_mc", coverage=True, workers=4 if thorough else 2,
+                           overrides={"MaxEv": "= %d" % heap_ev}, timeout=1500)
+        f_neg = ex.submit(run_tlc, "MC_EventQueueHeap", "EventQueueHeap_neg", workers=1, timeout=900)
+        f_gen = ex.submit(run_tlc, "MC_EventQueue", "EventQueue_gen", workers=1, timeout=900)
+        f_sim = ex.submit(run_tlc, "MC_EventQueue", "EventQueue_sim", workers=1, simulate=30000 if thorough else 3000,
+                          depth=14, seed=seed, timeout=900)
+        mc, heap, neg, gen, sim = [f.result() for f in (f_mc, f_heap, f_neg, f_gen, f_sim)]
     rep.add_tlc(mc, what % 3, "EventQueue_mc MaxEv=3", require_actions=MC_ACTIONS)
     require_ok(mc, "EventQueue model checking")
     rep.bounds["mc"] = {"MaxEv": 3, "Ts": "0..2", "kinds": 3, "add_events menu": "empty list, all 81 pairs, two triples",
                         "length of call sequences": "unbounded"}
+    rep.add_tlc(heap, "mechanism level: heapq sift algorithms + tuple comparison + array-preserving JSON round trip; HeapInv, "
+                      "NoDuplicates, Refines (every step is a step of EventQueue!Spec), <= %d events" % heap_ev,
+                "EventQueueHeap_mc MaxEv=%d" % heap_ev,
+                require_actions=["Add", "AddMany", "GetEvent", "GetCurrent", "QLen", "QEmpty", "QLastTs", "RoundTrip"])
+    require_ok(heap, "EventQueueHeap refinement")
+    if neg.ok or "property" not in (neg.violated or ""):
+        raise TlcFailure("negative control: TLC did not refute the refinement for a round trip that reverses the heap "
+                         "array (got %r) - the refinement check would be vacuous" % (neg.violated,))
+    rep.tlc_runs.append({"what": "NEGATIVE CONTROL (expected to fail): round trip that reverses the array", "cfg": "EventQueueHeap_neg",
+                         "cmd": neg.cmd, "generated": neg.generated, "distinct": neg.distinct, "depth": neg.depth,
+                         "wall_s": round(neg.wall_s, 1), "ok": neg.ok, "violated": neg.violated})
+    rep.bounds["mc_heap"] = {"MaxEv": heap_ev, "negative_control": "array reversed on load: Refines refuted by TLC after %d states"
+                                                                   % neg.distinct}
+    rep.notes.append("negative control of the refinement check: with the array reversed on load TLC refutes Refines (%s)"
+                     % neg.violated)
     if thorough:
         mc4 = run_tlc("MC_EventQueue", "EventQueue_mc", coverage=False, timeout=1500)
         rep.add_tlc(mc4, what % 4, "EventQueue_mc MaxEv=4")
         require_ok(mc4, "EventQueue model checking (4 events)")
         rep.bounds["mc"]["MaxEv"] = 4
 
-    # (B1) plans
     plan_sets = []          # (name, plans, share of plans that also get a saturated twin)
-    gen = run_tlc("MC_EventQueue", "EventQueue_gen", workers=1, timeout=900)
     require_ok(gen, "EventQueue plan generation")
     rep.add_tlc(gen, "plan generation, exhaustive: every sequence of 3 calls over the argument menus", "EventQueue_gen MaxOps=3")
     plan_sets.append(("exhaustive3", gen.emitted.get("BHV", []), 1.0 if thorough else 0.25))
@@ -553,8 +575,6 @@ def check_C11(tier, seed):
         require_ok(gen4, "EventQueue plan generation (4 calls)")
         rep.add_tlc(gen4, "plan generation, exhaustive: every sequence of 4 calls over the argument menus", "EventQueue_gen MaxOps=4")
         plan_sets.append(("exhaustive4", gen4.emitted.get("BHV", []), 0.1))
-    sim = run_tlc("MC_EventQueue", "EventQueue_sim", workers=1, simulate=30000 if thorough else 3000, depth=14, seed=seed,
-                  timeout=900)
     require_ok(sim, "EventQueue plan sampling")
     rep.add_tlc(sim, "plan generation, sampled: sequences of 9 calls, ts in 0..3 (-simulate)", "EventQueue_sim MaxOps=9")
     plan_sets.append(("sampled9", sim.emitted.get("BHV", []), 1.0))
@@ -586,7 +606,7 @@ def check_C11(tier, seed):
     st = [st_lines] + [c for _, c, _ in st_corr]
 
     # (C) TLC validates the logs
-    batches = list(_chunks(traces, 5000))
+    batches = list(_chunks(traces, max(2000, min(8000, -(-len(traces) // 4)))))
     batches[0] = batches[0] + st
     with ThreadPoolExecutor(max_workers=4) as ex:
         results = list(ex.map(tlc_validate, batches))
